@@ -976,6 +976,8 @@ static void unique_add_to_mapping (mapping_t * m1, mapping_t * m2, int free_flag
 }
 
 void absorb_mapping (mapping_t * m1, mapping_t * m2) {
+  if (m1 == m2)
+    return; /* m += m: every key is already there; copying a node onto itself frees its value first */
   if (m2->count)
     add_to_mapping (m1, m2, 0);
 }
